@@ -51,4 +51,4 @@ def cases(ctx):
         hdr = [rng.choice([0, 1, 0xFFFFFFFF, rng.getrandbits(32)]) for _ in range(4)]
         fr = P.build(shapes["eth-ipv4-udp"], rng)
         out.append(Case(P.pkt_line(fr, ["Gsec", "Gusec", "Gcaplen", "Gwirelen", "W", "Geth.ipv4.udp.payload", "W"], hdr), ("record-header",)))
-    return P.with_fix(ctx, out)
+    return P.with_witnesses(ctx, out)
